@@ -181,9 +181,27 @@ func main() {
 	}
 
 	env := goEnv()
+	// VERIF_REPO (development aid): build against another checkout of mattn/anko, e.g. a
+	// scratch worktree holding a mutant. Registered commands never set it: /repo is used.
+	repoDir := "/repo"
+	var modArgs []string
+	if r := os.Getenv("VERIF_REPO"); r != "" {
+		repoDir = r
+		mod, err := os.ReadFile(filepath.Join(verifDir, "go.mod"))
+		if err != nil {
+			die2("read go.mod: %v", err)
+		}
+		alt := strings.Replace(string(mod), "=> /repo", "=> "+repoDir, 1)
+		os.WriteFile(filepath.Join(scratch, "alt.mod"), []byte(alt), 0o644)
+		if sum, err := os.ReadFile(filepath.Join(verifDir, "go.sum")); err == nil {
+			os.WriteFile(filepath.Join(scratch, "alt.sum"), sum, 0o644)
+		}
+		modArgs = []string{"-modfile=" + filepath.Join(scratch, "alt.mod")}
+	}
+	env = append(env, "VERIF_REPO_DIR="+repoDir)
 	// ---- build ----
 	bin := filepath.Join(scratch, "prop.test")
-	buildArgs := []string{"test", "-c", "-vet=off", "-o", bin}
+	buildArgs := append([]string{"test", "-c", "-vet=off", "-o", bin}, modArgs...)
 	if cfg.Race {
 		buildArgs = append(buildArgs, "-race")
 	}
@@ -191,7 +209,7 @@ func main() {
 		buildArgs = append(buildArgs, "-tags", cfg.Tags)
 	}
 	if cfg.PreBuild != nil {
-		extra, err := cfg.PreBuild(scratch, env)
+		extra, err := cfg.PreBuild(scratch, repoDir, env, modArgs)
 		if err != nil {
 			fmt.Printf("INCONCLUSIVE: pre-build step failed: %v\n", err)
 			cleanupAndExit(2)
